@@ -44,7 +44,7 @@ func c04Alphabet() []c04op {
 	bodyB := []byte{0x11, 0x20, 0, 0, 0, 0, 0, 0, 0x30, 0x39}
 	bodyC := []byte{0x03, 'e', 't', 'h', 10, 0, 0, 1} // valid under C only by accident of lengths; under A: 5 + 3 padding
 	var ops []c04op
-	for _, d := range []uint32{1, 2} {
+	for _, d := range []uint32{1, 0} { // 0 is an ordinary observation domain id for scoping purposes
 		for _, id := range []uint16{256, 257} {
 			h := refcodec.Header{ExportTime: 1000 + d, Seq: uint32(id), Domain: d}
 			n := func(k string) string { return fmt.Sprintf("%s(d%d,%d)", k, d, id) }
@@ -59,6 +59,8 @@ func c04Alphabet() []c04op {
 				c04op{n("T_C"), refcodec.TemplateMsg(h, refcodec.Template{ID: id, Fields: tC})},
 				// unknown IANA element 999: refused in strict mode (a valid template in lenient modes)
 				c04op{n("Bad_unknown"), refcodec.TemplateMsg(h, refcodec.Template{ID: id, Fields: []refcodec.FieldSpec{{ID: 7, Len: 2}, {ID: 999, Len: 3}}})},
+				// the same unknown element announced with another width (lenient modes: a different valid template)
+				c04op{n("Bad_unknown5"), refcodec.TemplateMsg(h, refcodec.Template{ID: id, Fields: []refcodec.FieldSpec{{ID: 7, Len: 2}, {ID: 999, Len: 5}}})},
 				// field count 3, only two specifiers present
 				c04op{n("Bad_trunc"), func() []byte {
 					b := refcodec.TemplateBody(refcodec.Template{ID: id, Fields: tA})
@@ -317,7 +319,7 @@ func runC04(tier, replay string) int {
 	cov["samples"] = samples
 	cov["evaluations"] = traces
 	cov["distinct_nontrivial"] = interesting
-	cov["rule"] = "pass (a): every history of the 52-message alphabet (2 domains x 2 ids x {6 valid templates incl. one that extends another, one that differs only in enterprise number and one announcing a non-registry width, 4 bad templates, 3 data bodies}) up to hist_depth, replayed on a fresh collector in lock-step with the tmplstore/refcodec model; pass (b): BFS de-duplicated on the collector's template-table snapshot until the graph closes; deep pass: every history up to deep_depth over a 10-message sub-alphabet (one domain, two ids x {2 templates, 1 bad template, 2 bodies}) in strict/tcp and drop/udp, for state the table snapshot does not show. distinct_nontrivial = distinct reachable template tables with at least one template"
+	cov["rule"] = "pass (a): every history of the 56-message alphabet (2 domains, one of them 0, x 2 ids x {6 valid templates incl. one that extends another, one that differs only in enterprise number and one announcing a non-registry width, 5 bad templates (two of them valid in the lenient modes, announcing one unknown element with two widths), 3 data bodies}) up to hist_depth, replayed on a fresh collector in lock-step with the tmplstore/refcodec model; pass (b): BFS de-duplicated on the collector's template-table snapshot until the graph closes; deep pass: every history up to deep_depth over a 10-message sub-alphabet (one domain, two ids x {2 templates, 1 bad template, 2 bodies}) in strict/tcp and drop/udp, for state the table snapshot does not show. distinct_nontrivial = distinct reachable template tables with at least one template"
 	cov["exhaustive"] = exhaustive && closedAll
 	cov["closed"] = closedAll
 	cov["per_config"] = perCfg
